@@ -86,13 +86,18 @@ class C18(Prop):
             for kk, v in info.items():
                 if v:
                     res.label(kk)
+            has_conn = any(s["k"] == "conn" for s in d["stmts"])
             try:
                 nl = parse_text(text, ".eblif")
             except Exception as e:  # noqa
+                if d.get("conn_general") and has_conn and "naming conflict" in str(e):
+                    # same root cause as the recorded .conn finding: every .conn creates a new cable
+                    # named after its operands, a repeated pair collides
+                    res.violate("C18:read:nets-differ:conn-general", "%r\n%s" % (e, text[:800]))
+                    return res
                 res.violate("C18:reader-rejects-valid-text:%s" % type(e).__name__, "%r\n%s" % (e, text[:1200]))
                 return res
             got = gen_eblif.view(nl)
-            has_conn = any(s["k"] == "conn" for s in d["stmts"])
             cmp_views(res, "C18:read", expected, got,
                       suffix=":conn-general" if d.get("conn_general") and has_conn else "")
             if res.violations:
